@@ -55,52 +55,53 @@ def npParts : List Nat → List RPart → Except Reject (List NPart)
     .ok (r :: rs)
   | _, _ => .error .reject
 
-/-- Result dimension that feeds each key element.  All advanced elements (integers and
-lists, once a list is present) share one broadcast dimension; it sits where the first
-advanced element is when they are adjacent (`seen = none`, `d = 0` at the start) and in
-front otherwise (`seen = some 0`, `d = 1`). -/
-def npDimOf : List NPart → Nat → Option Nat → List Nat
+/-- Advanced indexing, one result cell: the subscript of `data` read for broadcast
+position `b` and the coordinates `js` of the slice modes (in key order): an integer gives
+itself, an index list its `b`-th entry (a one-entry list is broadcast), a slice the entry
+at its own coordinate. -/
+def advSrc : List NPart → Nat → List Nat → List Nat
   | [], _, _ => []
-  | p :: ps, d, seen =>
-    if p.isAdv then
-      match seen with
-      | some b => b :: npDimOf ps d (some b)
-      | none => d :: npDimOf ps (d + 1) (some d)
-    else d :: npDimOf ps (d + 1) seen
+  | .int i :: ps, b, js => i :: advSrc ps b js
+  | .list l :: ps, b, js => l.getD (if l.length == 1 then 0 else b) 0 :: advSrc ps b js
+  | .slice l :: ps, b, x :: js => l.getD x 0 :: advSrc ps b js
+  | .slice l :: ps, b, [] => l.getD 0 0 :: advSrc ps b []
+
+/-- The advanced elements (integers and lists) are adjacent: after the leading slices and
+the block of advanced elements only slices follow. -/
+def advAdjacent (ps : List NPart) : Bool :=
+  ((ps.dropWhile (fun p => !p.isAdv)).dropWhile NPart.isAdv).all (fun p => !p.isAdv)
+
+def NPart.sliceLen? : NPart → Option Nat
+  | .slice l => some l.length
+  | _ => none
+
+def NPart.listLen? : NPart → Option Nat
+  | .list l => some l.length
+  | _ => none
+
+/-- Lengths of the slice elements, in key order. -/
+def sliceLens (ps : List NPart) : List Nat := ps.filterMap NPart.sliceLen?
+
+/-- Lengths of the index lists, in key order. -/
+def listLens (ps : List NPart) : List Nat := ps.filterMap NPart.listLen?
 
 /-- `data[key]` as an index map: the shape of the result and, for every result cell in
 F order, the subscript of `data` it comes from.
 Without index lists this is basic indexing (integers drop their mode).  With lists it is
-NumPy advanced indexing: integers and lists are broadcast together and paired element by
-element. -/
+NumPy advanced indexing: integers and lists are broadcast together (common length `L`)
+and paired element by element; the broadcast dimension sits where the block of advanced
+elements is when they are adjacent, and in front otherwise. -/
 def npIndex (ps : List NPart) : Except Reject (List Nat × List (List Nat)) :=
   if !ps.any NPart.isList then
-    let lens := ps.filterMap fun p => match p with | .slice l => some l.length | _ => none
-    .ok (lens, outerF (ps.map fun p => match p with | .int i => [i] | .slice l => l | .list l => l))
+    .ok (sliceLens ps, outerF (ps.map fun p => match p with | .int i => [i] | .slice l => l | .list l => l))
   else
-    let lens := ps.filterMap fun p => match p with | .list l => some l.length | _ => none
-    let big := lens.filter (· != 1)
+    let big := (listLens ps).filter (· != 1)
     let L := big.headD 1
     if big.any (· != L) then .error .reject
     else
-      let advPos := (List.range ps.length).filter fun k => (ps.getD k (.int 0)).isAdv
-      let adjacent := advPos.getLastD 0 - advPos.headD 0 + 1 == advPos.length
-      let dimOf := if adjacent then npDimOf ps 0 none else npDimOf ps 1 (some 0)
-      let nd := maxNat dimOf + 1
-      let rshape := (List.range nd).map fun d =>
-        match (List.range ps.length).find? (fun k => dimOf.getD k 0 == d) with
-        | none => 1
-        | some k => match ps.getD k (.int 0) with
-          | .slice l => l.length
-          | _ => L
-      let src := (allSubs rshape).map fun j =>
-        (List.range ps.length).map fun k =>
-          let jd := j.getD (dimOf.getD k 0) 0
-          match ps.getD k (.int 0) with
-          | .int i => i
-          | .slice l => l.getD jd 0
-          | .list l => l.getD (if l.length == 1 then 0 else jd) 0
-      .ok (rshape, src)
+      let k := if advAdjacent ps then (ps.takeWhile fun p => !p.isAdv).length else 0
+      let rshape := (sliceLens ps).insertIdx k L
+      .ok (rshape, (allSubs rshape).map fun j => advSrc ps (j.getD k 0) (j.eraseIdx k))
 
 /-- NumPy broadcast of an assigned value to the shape of the indexed result; values in
 F order of that shape. -/
